@@ -60,6 +60,11 @@ CHECKS = {
    "Chains past the NRD hard fork receive blocks whose time-locked elements sit one below, at and one above their thresholds (coinbase maturity, lock_height, NRD relative height with shared excesses), on the main chain, on fork runs that win or lose (first instance or coinbase on the other side of the fork point, rewound away by a reorg) and across reopen; accept/reject of every block must equal the verdict of the harness's branch-local model. A fresh transaction pool (stem and fluff) is probed at head heights around each threshold and must admit exactly the transactions minable in the next block. Sampled exploration.",
    "NRD rule modelled exactly as worded in the statement; NRD acceptance by the pool is only required once the head header is at version 4.",
    "DESIGN.md §5 C13"),
+ "C09": ("fault", "fault_enumeration",
+   "exhaustive crash-point enumeration (process killed at every instrumented durable step) over fixed and proptest-generated scenarios, recovery compared with an uninterrupted twin run",
+   "For each scenario (plain extension, losing fork block, reorg with spends on both sides, header-only reorg, compaction, compaction followed by a block, plus generated variations) a trace run numbers every durable step (file truncate/write/fsync, temp-file rename, file replace, LMDB commit incl. nested commits, MMR syncs, chain commits); for EVERY step n a child process performs the action on a copy of the prepared directory and aborts at step n, and a second process reopens it with Chain::init, checks head membership, validate(false), presence of best-chain records, re-delivers the scenario's chain above the reopened head and must end on the head, roots and unspent set of the uninterrupted run. Exhaustive over the points of each scenario, sampled over scenarios. The unchanged tree violates the property in several windows; these are listed in KNOWN_FINDINGS.json by (scenario kind, file group being persisted, failure class) and printed as KNOWN-FINDING lines.",
+   "Crash = process death at an instrumented point (abort, nothing flushed): data handed to the kernel survives. Torn writes and lost fsyncs are out of scope. Hooks H2 (cfg grin_verif) provide the points.",
+   "DESIGN.md §5 C09"),
 }
 
 NOT_YET = {}
@@ -98,7 +103,9 @@ def main():
             "add_only": True,
         },
         "engines": [
-            {"name": "pbt", "path": "harness/src/engine", "serves_properties": [c["property_id"] for c in checks],
+            {"name": "fault", "path": "harness/src/props/c09.rs", "serves_properties": [c["property_id"] for c in checks if c["engine"] == "fault"],
+             "kind_free_text": "crash-point enumeration: child processes of the harness binary run a scenario on a copy of a prepared chain directory and abort at the n-th cfg(grin_verif) crash point; a second child reopens and reports JSON; scenarios are generated by proptest strategies"},
+            {"name": "pbt", "path": "harness/src/engine", "serves_properties": [c["property_id"] for c in checks if c["engine"] != "fault"],
              "kind_free_text": "proptest 1.11 TestRunner used as a library (fixed seed from VERIF_SEED, no persistence, shrinking), plus exhaustive enumeration of small finite domains; reference models in harness/src; failing cases are written to out/<id>/ and replayed with ./check <id> --replay"},
         ],
         "checks": checks,
